@@ -61,6 +61,10 @@ CHECKS = {
    text="OplLex.tla is the lexer as an automaton over character classes with the totality argument (every state function consumes a character or ends the scan: at most |input|+1 items, one final EOF/Error item, ordered in-range positions), checked by TLC on every string up to length 3 over a 30-symbol alphabet plus random longer ones; each string is lexed by the real lexer and the items with byte offsets must equal the model's. The parser is run on the same strings, on token deletions/duplications/swaps of a valid program, unterminated comments/strings and truncations at every position, nesting 1..10^4, a 0.5 MB input and random byte strings with invalid UTF-8: no panic, every error renders (Error, ToAPI, ToProto) with 1 <= start.line <= end.line <= lines+1, and the REST and gRPC syntax endpoints report the same errors.",
    note="'Time linear in the input' is not decided by this technique: only a 10 s per-input sanity bound (exit 2). Lexer-model keywords: {ctx}.",
    technique="TLA+ model checking of a lexer automaton + model-vs-implementation item comparison + grammar-directed near-miss replay", ref="4/C12"),
+ "C11": dict(
+   text="OplTypes.tla models the deferred type checks as written (Accepted) and the relation lookups the engine performs at run time (RuntimeOK) over a space of programs (type of the traversed relation, type of the group relation, which namespaces declare the permission, five permission bodies, seven single-reference mutations); TLC shows that type rules which look the computed relation up where the engine evaluates it are sound. Every enumerated program goes through the real parser: mutants must be rejected with an error whose source span is the offending token; accepted programs are loaded into a real server, relationships conforming to the declared types are written and every declared relation is checked for two subjects on five objects: no schema error may occur.",
+   note="The recorded finding (traverse over a SubjectSet<T,R> type) is attributed only for programs whose RuntimeOK the spec evaluates to FALSE. One program layout (three namespaces).",
+   technique="TLC-enumerated programs with spec-computed acceptance/run-time predicates replayed through parser and engine", ref="4/C11"),
 }
 NOT_YET = "check not built yet in this session (work in progress, see DESIGN.md section 12)"
 
